@@ -191,6 +191,7 @@ type Interp struct {
 	lockTrace  bool
 	raceCheck  bool
 	clockForce *Term
+	clockFrozen *Term
 	wg         map[lockKey]int
 	once       map[lockKey]bool
 	atomVals   map[lockKey]Value
@@ -198,6 +199,7 @@ type Interp struct {
 	hashUF     bool
 	extraScopes int
 	pathStart   time.Time
+	vnow        int64
 }
 
 type Config struct {
